@@ -1702,7 +1702,7 @@ func (p *Parser) parseBooleanExpression(single bool, negated bool, scriptName st
 		if p.curToken.Type != token.RPAREN {
 			return nil, nil, NewRangeParseError(openToken, p.curToken, "missing closing ')' for nested boolean expression")
 		}
-		if p.peekTokenIs(token.AND) || p.peekTokenIs(token.OR) {
+		if !single && (p.peekTokenIs(token.AND) || p.peekTokenIs(token.OR)) {
 			p.nextToken()
 			rightExpression, rightImpData, err := p.parseRightSideExpression(nestedExpression, single, negated, scriptName)
 			if err != nil {
